@@ -1629,14 +1629,15 @@ impl DtlsInner {
         handshake_msg.encode(&mut buf);
         ctx.handshake_messages.extend_from_slice(&buf);
 
-        self.send_handshake_message(
-            handshake_msg,
-            ctx.epoch,
-            &mut ctx.sequence_number,
-            None,
-            is_client,
-        )
-        .await?;
+        let client_key_exchange_record = self
+            .send_handshake_message(
+                handshake_msg,
+                ctx.epoch,
+                &mut ctx.sequence_number,
+                None,
+                is_client,
+            )
+            .await?;
         ctx.message_seq += 1;
 
         // Compute shared secret
@@ -1753,6 +1754,11 @@ impl DtlsInner {
         #[cfg(rustrtc_verif)]
         self.vflight(&flight_records, false, "first");
         self.conn.send_dtls_record_batch(&flight_records).await?;
+        // The flight that is retransmitted on timeout is the whole flight (RFC 6347
+        // §4.2.4): ClientKeyExchange, ChangeCipherSpec, Finished. Leaving out the
+        // ClientKeyExchange means a lost ClientKeyExchange is never repaired and both
+        // sides wait for the handshake deadline.
+        flight_records.insert(0, client_key_exchange_record);
         ctx.last_flight_records = Some(flight_records);
         ctx.message_seq += 1;
 
